@@ -37,6 +37,8 @@ pub struct Seed {
     pub fields: Vec<Field>,
     /// structural byte positions (everything except payload interiors)
     pub structural: Vec<usize>,
+    /// a large seed (maximal variable-length fields): field deviations only, no per-byte families
+    pub light: bool,
 }
 
 fn tlv_fields(base: usize, extra: &[u8], what: &str, out: &mut Vec<Field>) {
@@ -133,7 +135,7 @@ fn make_seed(label: &str, bytes: Vec<u8>) -> Seed {
         }
     }
     let structural = structural.iter().enumerate().filter(|(_, s)| **s).map(|(i, _)| i).collect();
-    Seed { label: label.to_string(), bytes, fields: f, structural }
+    Seed { label: label.to_string(), bytes, fields: f, structural, light: false }
 }
 
 pub fn seeds(seed: u64) -> Vec<Seed> {
@@ -197,6 +199,22 @@ pub fn seeds(seed: u64) -> Vec<Seed> {
         ..Default::default()
     };
     out.push(make_seed("builder-prefix-comments-infozip", build(&spec).0));
+    // maximal variable-length fields (the 16-bit length fields at their limit), with ZIP64 blocks next to them: field
+    // deviations only
+    let spec = Spec {
+        entries: vec![ESpec { name: b"m".to_vec(), method: 0, content: a.clone(), zip64_central: 7, central_extra: extra_block(0x7777, &vec![7u8; 65535 - 28 - 4]), ..Default::default() }],
+        ..Default::default()
+    };
+    out.push(Seed { light: true, ..make_seed("builder-max-central-extra+zip64", build(&spec).0) });
+    let spec = Spec {
+        entries: vec![
+            ESpec { name: vec![b'n'; 65535], method: 8, content: b.clone(), comment: vec![b'c'; 65535], local_extra: extra_block(0x6666, &vec![6u8; 65535 - 4 - 20]), zip64_local: true, zip64_central: 1, ..Default::default() },
+            ESpec { name: b"after".to_vec(), method: 0, content: a.clone(), ..Default::default() },
+        ],
+        comment: vec![b'k'; 65535],
+        ..Default::default()
+    };
+    out.push(Seed { light: true, ..make_seed("builder-max-name-comment-local-extra", build(&spec).0) });
     out
 }
 
@@ -269,16 +287,18 @@ impl Space {
             *next += n;
         };
         // smallest four for pairs
-        let mut by_len: Vec<usize> = (0..seeds.len()).collect();
+        let mut by_len: Vec<usize> = (0..seeds.len()).filter(|&i| !seeds[i].light).collect();
         by_len.sort_by_key(|&i| seeds[i].bytes.len());
-        let pair_seeds: Vec<usize> = by_len[..if thorough { seeds.len() } else { 2 }].to_vec();
+        let pair_seeds: Vec<usize> = by_len[..if thorough { by_len.len() } else { 2 }].to_vec();
         for (si, s) in seeds.iter().enumerate() {
-            push(Family::Prefix { seed: si }, s.bytes.len() as u64, &mut next);
-            push(Family::Suffix { seed: si }, s.bytes.len() as u64, &mut next);
-            // quick: structural bytes of the first entry's headers + end records only
-            push(Family::Subst { seed: si }, s.structural.len() as u64 * 255, &mut next);
-            push(Family::Delete { seed: si }, s.bytes.len() as u64, &mut next);
-            push(Family::Insert { seed: si }, (s.bytes.len() as u64 + 1) * 3, &mut next);
+            if !s.light {
+                push(Family::Prefix { seed: si }, s.bytes.len() as u64, &mut next);
+                push(Family::Suffix { seed: si }, s.bytes.len() as u64, &mut next);
+                // quick: structural bytes of the first entry's headers + end records only
+                push(Family::Subst { seed: si }, s.structural.len() as u64 * 255, &mut next);
+                push(Family::Delete { seed: si }, s.bytes.len() as u64, &mut next);
+                push(Family::Insert { seed: si }, (s.bytes.len() as u64 + 1) * 3, &mut next);
+            }
             let mut fv = vec![];
             for (fi, f) in s.fields.iter().enumerate() {
                 for v in values(f, s.bytes.len(), get(&s.bytes, f)) {
@@ -494,6 +514,72 @@ pub fn drive(bytes: &[u8], st: &mut Stats, case: &dyn Fn() -> Value, order: u64,
                     }
                 }
             }
+            // the same entries through the other ways std's Read offers to consume a reader (a ZipFile may override any of
+            // them): read_to_end, read_to_string, read_exact, bytes(), io::copy. No panic, no abort, and the memory a
+            // consumer ends up holding is bounded by what was actually delivered, not by what a header claims.
+            for i in 0..ar.len().min(8) {
+                for mode in 0..3 {
+                    for how in 0..5 {
+                        let api = ["by_index", "by_index_raw", "by_index_decrypt"][mode];
+                        let hname = ["read_to_end", "read_to_string", "read_exact", "bytes", "io::copy"][how];
+                        let m1 = alloc::mark();
+                        let r = guard(|| {
+                            let f = match mode {
+                                0 => ar.by_index(i).ok(),
+                                1 => ar.by_index_raw(i).ok(),
+                                _ => ar.by_index_decrypt(i, PW).ok().and_then(|r| r.ok()),
+                            };
+                            let mut f = match f {
+                                None => return None,
+                                Some(f) => f,
+                            };
+                            Some(match how {
+                                0 => {
+                                    let mut v = Vec::new();
+                                    let r = f.read_to_end(&mut v);
+                                    (r.is_ok(), v.len(), v.capacity())
+                                }
+                                1 => {
+                                    let mut v = String::new();
+                                    let r = f.read_to_string(&mut v);
+                                    (r.is_ok(), v.len(), v.capacity())
+                                }
+                                2 => {
+                                    let n = (f.size().min(4096) as usize) + 1;
+                                    let mut v = vec![0u8; n];
+                                    let r = f.read_exact(&mut v);
+                                    (r.is_ok(), n, n)
+                                }
+                                3 => {
+                                    let n = f.by_ref().bytes().take(4096).filter(|b| b.is_ok()).count();
+                                    (true, n, 0)
+                                }
+                                _ => {
+                                    let r = std::io::copy(&mut f.by_ref().take(16 << 20), &mut std::io::sink());
+                                    (r.is_ok(), r.unwrap_or(0) as usize, 0)
+                                }
+                            })
+                        });
+                        let peak = alloc::peak_since(m1);
+                        match r {
+                            Err(p) => note(&format!("{api}+{hname}"), p),
+                            Ok(None) => {}
+                            Ok(Some((ok, delivered, _cap))) => {
+                                st.class(&format!("{hname}:{}", if ok { "ok" } else { "err" }));
+                                st.max("max_consume_peak_bytes", peak as u64);
+                                if peak > (64 << 20) + 8 * delivered + 1024 * len {
+                                    st.viol(
+                                        format!("memory/{hname}/{fam}"),
+                                        format!("{api}({i}) + {hname}: {delivered} bytes delivered from a {len}-byte input, {peak} bytes live at peak"),
+                                        case(),
+                                        order,
+                                    );
+                                }
+                            }
+                        }
+                    }
+                }
+            }
             for n in &names {
                 if let Err(p) = guard(|| ar.by_name(n).map(|mut f| budget_read(&mut f).0).ok()) {
                     note("by_name", p);
@@ -611,6 +697,8 @@ pub fn drive(bytes: &[u8], st: &mut Stats, case: &dyn Fn() -> Value, order: u64,
 // worker / parent
 
 fn worker(args: &Args, spec: &str) -> i32 {
+    // inputs are at most a few hundred bytes (70 KiB for the long-field seeds): nothing legitimate asks for 1 GiB at once
+    alloc::set_single_request_cap(1 << 30);
     let thorough = args.tier.thorough();
     let space = Space::new(args.seed, thorough);
     let progress = std::env::var("ZIPMC_PROGRESS").ok().and_then(|p| std::fs::OpenOptions::new().write(true).create(true).open(p).ok());
